@@ -356,6 +356,9 @@ impl Client {
                         let v: Value = serde_json::from_slice(&r.2).unwrap_or(Value::Null);
                         let kept: Vec<String> = v.as_array().map(|a| a.iter().enumerate().filter(|(i, _)| *i != 6 && *i != 12).map(|(_, x)| x.to_string()).collect()).unwrap_or_default();
                         out.push(format!("groups|{}", kept.join(",")));
+                    } else if r.0 == "openmls_group_data" && String::from_utf8_lossy(&r.1).contains("group_state") {
+                        // may hold a pending commit made with fresh randomness: size class only
+                        out.push(format!("openmls_group_data|group_state|pending={}", r.2.len() > 64));
                     } else if r.0 == "group_relays" || r.0 == "openmls_own_leaf_nodes" {
                         out.push(format!("{}|{}", r.0, hx(&r.2)));
                     } else {
